@@ -28,6 +28,7 @@ func genStyle(t *rapid.T, allowNewline bool) vlib.Style {
 		TrailWS: lvl("trailws"), TrailComment: lvl("trailcomment"), Quote: lvl("quote"), Parens: lvl("parens"),
 		AnnBlock: lvl("annblock"), DescParens: lvl("descparens"), Seed: rapid.Uint64Range(1, 1<<40).Draw(t, "styleseed"),
 	}
+	st.NoFinalNL = rapid.IntRange(0, 3).Draw(t, "noFinalNL") == 0
 	if allowNewline {
 		st.NL = rapid.SampledFrom([]string{"", "", "\r\n", "\r"}).Draw(t, "nl")
 	}
